@@ -359,3 +359,27 @@ def run_isolated(fn, arg, timeout=60):
     if not data:
         return ("died", status)
     return tuple(json.loads(data.decode()))
+
+
+class Watchdog(BaseException):
+    """Raised by time_limit() inside code under test that does not terminate."""
+
+
+class time_limit:
+    """with time_limit(s): ... raises Watchdog in the main thread of the process after s seconds (SIGALRM)."""
+
+    def __init__(self, seconds):
+        self.seconds = seconds
+
+    def _fire(self, signum, frame):
+        raise Watchdog("no termination within %.0f s" % self.seconds)
+
+    def __enter__(self):
+        self.old = signal.signal(signal.SIGALRM, self._fire)
+        signal.setitimer(signal.ITIMER_REAL, self.seconds)
+        return self
+
+    def __exit__(self, *a):
+        signal.setitimer(signal.ITIMER_REAL, 0)
+        signal.signal(signal.SIGALRM, self.old)
+        return False
